@@ -291,4 +291,432 @@ theorem exec_delete_some (s : State) (id : Id) (it : Item) (h : get id s.index =
     simp [List.map_map, Function.comp_def]
   simp only [exec, plan, h, runSteps, applyStep, this, runSteps_removes, deleted]
 
+
+/-! ### Invariants -/
+
+section Inv
+variable (parse : Bytes → Option Bundle)
+
+/-- One index entry is consistent with the files. -/
+structure ItemOk (s : State) (id : Id) (it : Item) : Prop where
+  /-- a part's file name is derived from the item's id and, for fragments, the part's offset/total -/
+  names : ∀ p ∈ it.parts, p.name = ⟨id, if it.fragmented then some (p.off, p.total) else none⟩
+  /-- each (offset, total) once -/
+  nodup : (it.parts.map (fun p => (p.off, p.total))).Nodup
+  /-- an unfragmented item has exactly one part -/
+  whole : it.fragmented = false → ∃ p, it.parts = [p]
+  nonempty : it.parts ≠ []
+  /-- every part's file exists and parses to a bundle of this id with this part's offset/total -/
+  readable : ∀ p ∈ it.parts, ∃ b, loadPart parse s p = some b ∧ b.id = id ∧ b.frag = p.name.frag
+
+/-- The invariant every reachable state satisfies, *including* states left by a process kill:
+the index is a map and every entry is readable. Unreferenced files are allowed. -/
+def Inv' (s : State) : Prop :=
+  (keys s.index).Nodup ∧ ∀ id it, get id s.index = some it → ItemOk parse s id it
+
+/-- No unreferenced file. -/
+def NoOrphans (s : State) : Prop :=
+  ∀ n, (get n s.files).isSome → ∃ id it, get id s.index = some it ∧ ∃ p ∈ it.parts, p.name = n
+
+/-- The invariant of states reached without a crash. -/
+def Inv (s : State) : Prop := Inv' parse s ∧ NoOrphans s
+
+theorem inv'_empty : Inv' parse State.empty := ⟨by simp [State.empty, keys], by simp [State.empty]⟩
+
+theorem inv_empty : Inv parse State.empty := ⟨inv'_empty parse, by simp [NoOrphans, State.empty]⟩
+
+theorem loadPart_congr {s s' : State} {p : Part} (h : get p.name s'.files = get p.name s.files) :
+    loadPart parse s' p = loadPart parse s p := by
+  simp [loadPart, h]
+
+theorem absItem_congr {s s' : State} {it : Item}
+    (h : ∀ p ∈ it.parts, get p.name s'.files = get p.name s.files) :
+    absItem parse s' it = absItem parse s it := by
+  simp only [absItem]
+  congr 1
+  exact List.map_congr_left (fun p hp => by rw [loadPart_congr parse (h p hp)])
+
+/-- Files that differ only on names of bundle `id0` do not matter to items of other ids. -/
+theorem ItemOk.frame {s s' : State} {id id0 : Id} {it : Item} (h : ItemOk parse s id it)
+    (hne : id ≠ id0) (hf : ∀ n : Name, n.id ≠ id0 → get n s'.files = get n s.files) :
+    ItemOk parse s' id it ∧ absItem parse s' it = absItem parse s it := by
+  have hp : ∀ p ∈ it.parts, get p.name s'.files = get p.name s.files := by
+    intro p hp
+    apply hf
+    rw [h.names p hp]; exact hne
+  refine ⟨⟨h.names, h.nodup, h.whole, h.nonempty, ?_⟩, absItem_congr parse hp⟩
+  intro p hpm
+  obtain ⟨b, hb⟩ := h.readable p hpm
+  exact ⟨b, by rw [loadPart_congr parse (hp p hpm)]; exact hb.1, hb.2⟩
+
+theorem get_abs (s : State) (id : Id) :
+    get id (abs parse s) = (get id s.index).map (absItem parse s) := by
+  simp only [abs]; exact get_map id s.index (absItem parse s)
+
+theorem keys_abs (s : State) : keys (abs parse s) = keys s.index := by
+  simp only [abs]; exact keys_map s.index (absItem parse s)
+
+/-- Changing files that no index entry refers to (or not changing the referenced ones) keeps the
+invariant and is invisible to readers. -/
+theorem files_frame {s : State} (h : Inv' parse s) (fs' : List (Name × Bytes))
+    (hf : ∀ id it p, get id s.index = some it → p ∈ it.parts → get p.name fs' = get p.name s.files) :
+    Inv' parse ⟨s.index, fs'⟩ ∧ abs parse ⟨s.index, fs'⟩ = abs parse s := by
+  refine ⟨⟨h.1, ?_⟩, ?_⟩
+  · intro id it hg
+    have ok := h.2 id it hg
+    refine ⟨ok.names, ok.nodup, ok.whole, ok.nonempty, ?_⟩
+    intro p hp
+    obtain ⟨b, hb⟩ := ok.readable p hp
+    refine ⟨b, ?_, hb.2⟩
+    rw [← hb.1]
+    exact loadPart_congr parse (hf id it p hg hp)
+  · simp only [abs]
+    refine List.map_congr_left (fun e he => ?_)
+    have hg : get e.1 s.index = some e.2 := get_of_mem h.1 he
+    rw [absItem_congr parse (s := s) (s' := ⟨s.index, fs'⟩) (fun p hp => hf e.1 e.2 p hg hp)]
+
+theorem index_put {s : State} (h : Inv' parse s) (id : Id) (it : Item) (ok : ItemOk parse s id it) :
+    Inv' parse ⟨put id it s.index, s.files⟩ ∧
+      abs parse ⟨put id it s.index, s.files⟩ = put id (absItem parse s it) (abs parse s) := by
+  refine ⟨⟨nodup_keys_put it h.1, ?_⟩, ?_⟩
+  · intro id' it' hg
+    by_cases hid : id = id'
+    · subst hid
+      rw [get_put_self] at hg
+      injection hg with hg; subst hg
+      exact ⟨ok.names, ok.nodup, ok.whole, ok.nonempty, ok.readable⟩
+    · rw [get_put_ne id id' it s.index hid] at hg
+      have ok' := h.2 id' it' hg
+      exact ⟨ok'.names, ok'.nodup, ok'.whole, ok'.nonempty, ok'.readable⟩
+  · simp only [abs]
+    exact map_put_congr id it s.index _ _ h.1 (fun e _ _ => rfl)
+
+theorem index_del {s : State} (h : Inv' parse s) (id : Id) :
+    Inv' parse ⟨del id s.index, s.files⟩ ∧
+      abs parse ⟨del id s.index, s.files⟩ = del id (abs parse s) := by
+  refine ⟨⟨nodup_keys_del id h.1, ?_⟩, ?_⟩
+  · intro id' it' hg
+    by_cases hid : id = id'
+    · subst hid; rw [get_del_self] at hg; cases hg
+    · rw [get_del_ne id id' s.index hid] at hg
+      have ok' := h.2 id' it' hg
+      exact ⟨ok'.names, ok'.nodup, ok'.whole, ok'.nonempty, ok'.readable⟩
+  · simp only [abs]
+    exact map_del id s.index _
+
+/-! ### Push -/
+
+theorem frag_eq (b : Bundle) : b.frag = if b.frag.isSome then some (bOff b, bTotal b) else none := by
+  cases h : b.frag with
+  | none => rfl
+  | some x => simp [bOff, bTotal, h]
+
+theorem written_frame (s : State) (b : Bundle) (n : Name) (h : n ≠ (partOf b).name) :
+    get n (writtenFiles s b) = get n s.files := by
+  simp only [writtenFiles]
+  exact get_put_ne _ _ _ _ (fun e => h e.symm)
+
+theorem load_written {b : Bundle} (hwf : WF parse b) (s : State) (idx : List (Id × Item)) :
+    loadPart parse ⟨idx, writtenFiles s b⟩ (partOf b) = some b := by
+  simp only [loadPart, writtenFiles, get_put_self, Option.bind_some, overwrite]
+  exact hwf _
+
+/-- The file `Push` writes is not referenced by the index at that moment. -/
+def PushUnref (s : State) (b : Bundle) : Prop :=
+  ∀ id it p, get id s.index = some it → p ∈ it.parts → p.name ≠ (partOf b).name
+
+theorem pushUnref_new {s : State} (h : Inv' parse s) (b : Bundle) (hn : get b.id s.index = none) :
+    PushUnref s b := by
+  intro id it p hg hp
+  have := (h.2 id it hg).names p hp
+  intro e
+  have hid : id = b.id := by
+    have := congrArg Name.id (this.symm.trans e)
+    simpa [partOf] using this
+  subst hid; rw [hn] at hg; cases hg
+
+theorem pushUnref_frag {s : State} (h : Inv' parse s) (b : Bundle) (it0 : Item)
+    (hs : get b.id s.index = some it0) (hc : pushCond b it0 = true) : PushUnref s b := by
+  intro id it p hg hp
+  have hnm := (h.2 id it hg).names p hp
+  intro e
+  have hid : id = b.id := by
+    have := congrArg Name.id (hnm.symm.trans e)
+    simpa [partOf] using this
+  subst hid
+  rw [hs] at hg; injection hg with hg; subst hg
+  simp only [pushCond, Bool.and_eq_true, Bool.not_eq_true', List.any_eq_false] at hc
+  have hfr : it0.fragmented = true := hc.1.2
+  have hsf := hc.2 p hp
+  have hfrag := congrArg Name.frag (hnm.symm.trans e)
+  simp only [hfr, if_true, partOf] at hfrag
+  rw [frag_eq b, if_pos hc.1.1] at hfrag
+  apply hsf
+  simp only [sameFrag, fragKey]
+  injection hfrag with hfrag
+  rw [hfrag]; exact beq_self_eq_true _
+
+/-- After the part file was written (crash point `push:*:file-written`): nothing visible changed. -/
+theorem push_written {s : State} (h : Inv' parse s) (b : Bundle) (hu : PushUnref s b) :
+    Inv' parse ⟨s.index, writtenFiles s b⟩ ∧ abs parse ⟨s.index, writtenFiles s b⟩ = abs parse s :=
+  files_frame parse h _ (fun id it p hg hp => written_frame s b p.name (hu id it p hg hp))
+
+def pushedRecord (b : Bundle) : Record :=
+  ⟨b.frag.isSome, [(fragKey b, some b.bytes)], false, b.expires, []⟩
+
+theorem itemOk_new {b : Bundle} (hwf : WF parse b) (s : State) (idx : List (Id × Item)) :
+    ItemOk parse ⟨idx, writtenFiles s b⟩ b.id (newItem b) := by
+  refine ⟨?_, by simp [newItem], fun _ => ⟨partOf b, rfl⟩, by simp [newItem], ?_⟩
+  · intro p hp
+    simp only [newItem, List.mem_singleton] at hp
+    subst hp
+    exact congrArg (Name.mk b.id) (frag_eq b)
+  · intro p hp
+    simp only [newItem, List.mem_singleton] at hp
+    subst hp
+    exact ⟨b, load_written parse hwf s idx, rfl, rfl⟩
+
+theorem push_new {s : State} (h : Inv' parse s) {b : Bundle} (hwf : WF parse b)
+    (hn : get b.id s.index = none) :
+    Inv' parse (exec s (.push b)) ∧
+      abs parse (exec s (.push b)) = put b.id (pushedRecord b) (abs parse s) := by
+  rw [exec_push_new s b hn]
+  obtain ⟨h1, a1⟩ := push_written parse h b (pushUnref_new parse h b hn)
+  obtain ⟨h2, a2⟩ := index_put parse h1 b.id (newItem b) (itemOk_new parse hwf s s.index)
+  refine ⟨h2, ?_⟩
+  rw [a2, a1]
+  congr 1
+  simp only [absItem, newItem, pushedRecord, List.map_cons, List.map_nil,
+    load_written parse hwf s s.index, Option.map_some]
+  rfl
+
+theorem push_frag {s : State} (h : Inv' parse s) {b : Bundle} (hwf : WF parse b) (it : Item)
+    (hs : get b.id s.index = some it) (hc : pushCond b it = true) :
+    Inv' parse (exec s (.push b)) ∧
+      abs parse (exec s (.push b)) =
+        put b.id { absItem parse s it with
+          parts := (absItem parse s it).parts ++ [(fragKey b, some b.bytes)] } (abs parse s) := by
+  rw [exec_push_frag s b it hs hc]
+  have hu := pushUnref_frag parse h b it hs hc
+  obtain ⟨h1, a1⟩ := push_written parse h b hu
+  have ok1 : ItemOk parse ⟨s.index, writtenFiles s b⟩ b.id it := h1.2 b.id it hs
+  simp only [pushCond, Bool.and_eq_true, Bool.not_eq_true', List.any_eq_false] at hc
+  have hfr : it.fragmented = true := hc.1.2
+  have ok2 : ItemOk parse ⟨s.index, writtenFiles s b⟩ b.id
+      { it with parts := it.parts ++ [partOf b] } := by
+    refine ⟨?_, ?_, ?_, by simp, ?_⟩
+    · intro p hp
+      simp only [List.mem_append, List.mem_singleton] at hp
+      rcases hp with hp | hp
+      · exact ok1.names p hp
+      · subst hp
+        simp only [hfr, if_true, partOf]
+        rw [frag_eq b, if_pos hc.1.1]
+    · simp only [List.map_append, List.map_cons, List.map_nil]
+      refine List.nodup_append.mpr ⟨ok1.nodup, by simp, ?_⟩
+      intro a ha c hc'
+      simp only [List.mem_singleton] at hc'
+      subst hc'
+      obtain ⟨p, hp, rfl⟩ := List.mem_map.mp ha
+      intro e
+      apply hc.2 p hp
+      simp only [sameFrag, fragKey, partOf] at e ⊢
+      rw [e]; exact beq_self_eq_true _
+    · intro hf; simp [hfr] at hf
+    · intro p hp
+      simp only [List.mem_append, List.mem_singleton] at hp
+      rcases hp with hp | hp
+      · exact ok1.readable p hp
+      · subst hp
+        exact ⟨b, load_written parse hwf s s.index, rfl, rfl⟩
+  obtain ⟨h2, a2⟩ := index_put parse h1 b.id _ ok2
+  refine ⟨h2, ?_⟩
+  rw [a2, a1]
+  congr 1
+  have hold : absItem parse ⟨s.index, writtenFiles s b⟩ it = absItem parse s it :=
+    absItem_congr parse (fun p hp => written_frame s b p.name (hu b.id it p hs hp))
+  have hl := load_written parse hwf s s.index
+  simp only [absItem] at hold ⊢
+  simp only [List.map_append, List.map_cons, List.map_nil, hl, Option.map_some]
+  injection hold with _ hparts
+  rw [hparts]
+  rfl
+
+/-! ### Update -/
+
+theorem update_some {s : State} (h : Inv' parse s) (id : Id) (pe : Bool) (ex : Nat) (pr : Props)
+    (it : Item) (hs : get id s.index = some it) :
+    Inv' parse (exec s (.update id pe ex pr)) ∧
+      abs parse (exec s (.update id pe ex pr)) =
+        put id { absItem parse s it with pending := pe, expires := ex, props := pr } (abs parse s) := by
+  rw [exec_update_some s id pe ex pr it hs]
+  have ok := h.2 id it hs
+  have ok' : ItemOk parse s id { it with pending := pe, expires := ex, props := pr } :=
+    ⟨ok.names, ok.nodup, ok.whole, ok.nonempty, ok.readable⟩
+  obtain ⟨h2, a2⟩ := index_put parse h id _ ok'
+  exact ⟨h2, by rw [a2]; rfl⟩
+
+/-! ### Delete -/
+
+theorem delete_frame {s : State} (h : Inv' parse s) (id : Id) (ns : List Name)
+    (hns : ∀ n ∈ ns, n.id = id) :
+    Inv' parse (deleted s id ns) ∧ abs parse (deleted s id ns) = del id (abs parse s) := by
+  obtain ⟨h1, a1⟩ := index_del parse h id
+  have := files_frame parse h1 (removeAll ns s.files) (by
+    intro id' it' p hg hp
+    apply get_removeAll_of_not_mem
+    intro hmem
+    have hid : id' ≠ id := by
+      intro e; subst e
+      simp only at hg
+      rw [get_del_self] at hg; cases hg
+    have hn := (h1.2 id' it' hg).names p hp
+    have := hns _ hmem
+    rw [hn] at this
+    exact hid this)
+  exact ⟨this.1, by rw [← a1]; exact this.2⟩
+
+theorem part_names_id {s : State} {id : Id} {it : Item} (ok : ItemOk parse s id it) (ps : List Part)
+    (hps : ∀ p ∈ ps, p ∈ it.parts) : ∀ n ∈ ps.map (·.name), n.id = id := by
+  intro n hn
+  obtain ⟨p, hp, rfl⟩ := List.mem_map.mp hn
+  rw [ok.names p (hps p hp)]
+
+theorem delete_some {s : State} (h : Inv' parse s) (id : Id) (it : Item)
+    (hs : get id s.index = some it) :
+    Inv' parse (exec s (.delete id)) ∧ abs parse (exec s (.delete id)) = del id (abs parse s) := by
+  rw [exec_delete_some s id it hs]
+  exact delete_frame parse h id _ (part_names_id parse (h.2 id it hs) it.parts (fun _ hp => hp))
+
+theorem delete_crash {s : State} (h : Inv' parse s) (id : Id) (it : Item)
+    (hs : get id s.index = some it) (k : Nat) :
+    Inv' parse (crash (k + 1) s (.delete id)) ∧
+      abs parse (crash (k + 1) s (.delete id)) = del id (abs parse s) := by
+  rw [crash_delete_some s id it hs]
+  exact delete_frame parse h id _
+    (part_names_id parse (h.2 id it hs) (it.parts.take k) (fun _ hp => List.mem_of_mem_take hp))
+
+theorem del_abs_of_none {s : State} (id : Id) (hs : get id s.index = none) :
+    del id (abs parse s) = abs parse s := by
+  have : id ∉ keys (abs parse s) := by rw [keys_abs]; exact (get_none_iff id s.index).mp hs
+  simp only [del]
+  apply List.filter_eq_self.mpr
+  intro e he
+  simp only [Bool.not_eq_true', decide_eq_false_iff_not]
+  intro e'; exact this (e' ▸ List.mem_map.mpr ⟨e, he, rfl⟩)
+
+/-! ### All operations -/
+
+/-- Pushed bundles are parseable by the parser in use. -/
+def OpWF : Op → Prop
+  | .push b => WF parse b
+  | _ => True
+
+def CmdWF : Cmd → Prop
+  | .op o => OpWF parse o
+  | _ => True
+
+theorem absItem_any (s : State) (it : Item) (b : Bundle) :
+    (absItem parse s it).parts.any (fun p => p.1 == fragKey b) = it.parts.any (sameFrag b) := by
+  simp only [absItem, List.any_map]
+  rfl
+
+theorem exec_refines {s : State} (h : Inv' parse s) (op : Op) (hw : OpWF parse op) :
+    Inv' parse (exec s op) ∧ abs parse (exec s op) = specStep (abs parse s) (.op op) := by
+  cases op with
+  | push b =>
+    cases hg : get b.id s.index with
+    | none =>
+      obtain ⟨h1, a1⟩ := push_new parse h hw hg
+      refine ⟨h1, ?_⟩
+      rw [a1]
+      simp only [specStep, get_abs, hg, Option.map_none]
+      rfl
+    | some it =>
+      cases hc : pushCond b it with
+      | true =>
+        obtain ⟨h1, a1⟩ := push_frag parse h hw it hg hc
+        refine ⟨h1, ?_⟩
+        rw [a1]
+        simp only [specStep, get_abs, hg, Option.map_some, absItem_any]
+        have : (b.frag.isSome && (absItem parse s it).fragmented && !it.parts.any (sameFrag b)) = true := hc
+        rw [if_pos this]
+      | false =>
+        have hp := plan_push_ignored s b it hg hc
+        simp only [exec, hp, runSteps]
+        refine ⟨h, ?_⟩
+        simp only [specStep, get_abs, hg, Option.map_some, absItem_any]
+        have : (b.frag.isSome && (absItem parse s it).fragmented && !it.parts.any (sameFrag b)) = false := hc
+        rw [this]; rfl
+  | update id pe ex pr =>
+    cases hg : get id s.index with
+    | none =>
+      simp only [exec, plan_update_none s id pe ex pr hg, runSteps]
+      exact ⟨h, by simp [specStep, get_abs, hg]⟩
+    | some it =>
+      obtain ⟨h1, a1⟩ := update_some parse h id pe ex pr it hg
+      exact ⟨h1, by rw [a1]; simp [specStep, get_abs, hg]⟩
+  | delete id =>
+    cases hg : get id s.index with
+    | none =>
+      simp only [exec, plan_delete_none s id hg, runSteps]
+      exact ⟨h, by simp only [specStep]; rw [del_abs_of_none parse id hg]⟩
+    | some it =>
+      obtain ⟨h1, a1⟩ := delete_some parse h id it hg
+      exact ⟨h1, by rw [a1]; rfl⟩
+
+theorem crash_zero (s : State) (op : Op) : crash 0 s op = s := by simp [crash, runSteps]
+
+theorem crash_ge (s : State) (op : Op) (k : Nat) (hk : (plan s op).length ≤ k) :
+    crash k s op = exec s op := by
+  simp [crash, exec, List.take_of_length_le hk]
+
+/-- A process kill after any number of micro-steps leaves a consistent store whose visible content
+is either the one before the operation or the one after it. -/
+theorem crash_cases {s : State} (h : Inv' parse s) (op : Op) (hw : OpWF parse op) (k : Nat) :
+    Inv' parse (crash k s op) ∧
+      (abs parse (crash k s op) = abs parse s ∨ abs parse (crash k s op) = abs parse (exec s op)) := by
+  have hex := exec_refines parse h op hw
+  have full : ∀ k, (plan s op).length ≤ k → Inv' parse (crash k s op) ∧
+      (abs parse (crash k s op) = abs parse s ∨ abs parse (crash k s op) = abs parse (exec s op)) := by
+    intro k hk; rw [crash_ge s op k hk]; exact ⟨hex.1, Or.inr rfl⟩
+  match k with
+  | 0 => rw [crash_zero]; exact ⟨h, Or.inl rfl⟩
+  | k + 1 =>
+    cases op with
+    | push b =>
+      cases hg : get b.id s.index with
+      | none =>
+        match k with
+        | 0 =>
+          rw [crash1_push_new s b hg]
+          obtain ⟨h1, a1⟩ := push_written parse h b (pushUnref_new parse h b hg)
+          exact ⟨h1, Or.inl a1⟩
+        | k + 1 => exact full _ (by simp [plan, hg])
+      | some it =>
+        cases hc : pushCond b it with
+        | true =>
+          match k with
+          | 0 =>
+            rw [crash1_push_frag s b it hg hc]
+            obtain ⟨h1, a1⟩ := push_written parse h b (pushUnref_frag parse h b it hg hc)
+            exact ⟨h1, Or.inl a1⟩
+          | k + 1 =>
+            refine full _ ?_
+            simp only [pushCond] at hc
+            simp [plan, hg, hc]
+        | false => exact full _ (by simp [plan_push_ignored s b it hg hc])
+    | update id pe ex pr =>
+      refine full _ ?_
+      cases hg : get id s.index <;> simp [plan, hg]
+    | delete id =>
+      cases hg : get id s.index with
+      | none => exact full _ (by simp [plan, hg])
+      | some it =>
+        obtain ⟨h1, a1⟩ := delete_crash parse h id it hg k
+        refine ⟨h1, Or.inr ?_⟩
+        rw [a1, (delete_some parse h id it hg).2]
+
+end Inv
+
 end Dtn7.Store.Lemmas
